@@ -343,6 +343,8 @@ class Check:
             if k["key"] == key:
                 if key not in [h["key"] for h in self.known_hits]:
                     self.known_hits.append(k)
+                    try: self.replay_file("known-" + key, content)     # reproducer of the recorded finding
+                    except Exception: pass
                 return
         p = self.replay_file(key, content)
         self.violations.append((key, p, no_input))
@@ -434,3 +436,38 @@ def finish_with_broken(ck, **kw):
 def _kh(self):
     return False
 Check.known_hits_cover_broken = _kh
+
+
+# ------------------------------------------------------------------ replay
+def replay_generic(ck, path, start="start 1 - 0", wrap=()):
+    """re-run the failing case recorded in a replay file on the current implementation and print what it does"""
+    if not os.path.exists(path):
+        print("replay file %s does not exist" % path); return 2
+    d = json.load(open(path))
+    print("replay of %s" % path)
+    for k in ("reason", "scenario", "meaning", "failing_path", "broken"):
+        if k in d: print("%s: %s" % (k, json.dumps(d[k])[:1500]))
+    script = None
+    if "script" in d: script = d["script"]
+    elif "schedule" in d: script = ["case replay", "reset_nodes", "cap 0", "flush"] + d["schedule"] + ["flush"]; wrap = ("pthread_mutex_lock",)
+    elif "ops" in d:
+        script = ["case replay", "cap 0", "flush"]
+        for o in d["ops"]:
+            script.append("add " + o[1] if o[0] == "add" else ("flush" if o[0] == "flush" else "cap %s" % o[1]))
+        script.append("flush")
+    elif "chunks" in d:
+        script = ["case replay", "rx fe", "discard q"] + ["rx " + c for c in d["chunks"]] + ["drain q", "drain e"]
+    elif "message" in d and isinstance(d["message"], str):
+        import flowgen
+        start = d.get("start", start)
+        script = ["case replay", "rx " + hexs(flowgen.frame(unhex(d["message"]))), "drain q", "drain e"]
+    if script is None:
+        print("(no executable script in this replay file; it documents a broken proof obligation / tie)")
+        return 0
+    exe = build_harness(wrap=wrap)
+    rc, out, err = run_driver(exe, start + "\n" + "\n".join(script) + "\n", timeout=60)
+    print("--- script"); print("\n".join(script))
+    print("--- implementation (exit %d)" % rc); print(out)
+    if err.strip(): print("--- stderr"); print(err[:1500])
+    if "impl" in d: print("--- recorded at detection time"); print("\n".join(d["impl"] or []))
+    return 0
